@@ -27,6 +27,9 @@ rule("C05.g", "inside the block loop the global cumulative inflow is used only t
 rule("C05.k", "time blocks: a block boundary that coincides with the end of the storage's grid does not start a block (date_range includes "
               "its end; 'last time point <= boundary' then is the last step, which would become a block of its own)", floor=1,
      props=["C05", "C14"])
+rule("C05.o", "reported fill level: every per-step contribution (dispatch, inflow) enters the per-step vector before it is cumulated over the "
+              "horizon; a cumulated series is not modified on a subset of steps afterwards (what is added inside the window would not be "
+              "carried beyond it)", floor=1, props=["C05", "C08"])
 rule("C05.h", "the holding-duration indicator multiplies -size (binary 0 => level <= 0), not the shifted upper bound", floor=1)
 
 LEVEL_PARAMS = {
@@ -114,7 +117,7 @@ class _Arm:
         return self
 
 
-@analysis("storage", ["C05.a", "C05.e", "C05.g", "C05.h", "C05.k"])
+@analysis("storage", ["C05.a", "C05.e", "C05.g", "C05.h", "C05.k", "C05.o"])
 def run(ctx):
     p = ctx.p
     sto = p.cls("Storage")
@@ -276,6 +279,25 @@ def run(ctx):
                ok_detail="global cumulative inflow only used to build a re-based block copy (%s)" % ", ".join(sorted(local_copies)))
     if n_loops == 0:
         ctx.ob("C05.g", setup, "block loop", None, "no loop filling diagonal blocks found (block variant rewritten?)")
+
+    # ================================================================= C05.o cumulate last
+    fl = p.fn_opt("Storage.fill_level")
+    if fl is None:
+        ctx.ob("C05.o", "Storage", "fill_level", None, "Storage.fill_level not found")
+    else:
+        cums = [st for st in au.walk_stmts(fl.body) if isinstance(st, ast.Assign) and isinstance(st.targets[0], ast.Name)
+                and any(isinstance(c, ast.Call) and au.method_name(c) == "cumsum" and st.targets[0].id in au.names_in(c) for c in au.walk_local(st.value))]
+        if not cums:
+            ctx.ob("C05.o", fl, "cumulative sum of the per-step changes", None, "no `x = x.cumsum()` found")
+        for st in cums:
+            nm = st.targets[0].id
+            later = [s2 for s2 in au.walk_stmts(fl.body) if s2.lineno > st.lineno and isinstance(s2, (ast.Assign, ast.AugAssign))
+                     and any(isinstance(t0, ast.Subscript) and au.base_name(t0) == nm for t0 in au.stmt_targets(s2))]
+            ctx.ob("C05.o", fl, "%s is cumulated after all per-step contributions" % nm, not later,
+                   "`%s` changes the cumulated level on a subset of steps (the asset's window): the amount added there is not carried to the "
+                   "steps behind the window, so the reported level of a storage with inflow drops by the total inflow at the end of its "
+                   "window - in a step where neither dispatch nor inflow happens (level -8 instead of 4 after the window)" % (
+                       au.short(later[0], 70) if later else ""), node=(later[0] if later else st))
 
     # ================================================================= C05.k block boundaries
     found_k = False
